@@ -25,6 +25,11 @@ LIB = {
               'out': 'v', 'defaults': {'v': 1.0, 'w': 0.0, 'k': 4.0, 'c': 0.3}},
     'leak':  {'eqs': ["x' = -a*x + b*u"], 'state': ['x'], 'const': ['a', 'b'], 'in': 'u', 'out': 'x',
               'defaults': {'x': 0.5, 'a': 2.0, 'b': 1.0}},
+    # delayed self-coupling in both notations (one delayed term per operator: forms with two are refused loudly today)
+    'dd':    {'eqs': ["x' = -a*past(x, tau) + c*x + u"], 'state': ['x'], 'const': ['a', 'c', 'tau'], 'in': 'u', 'out': 'x',
+              'defaults': {'x': 1.0, 'a': 2.0, 'c': 0.25, 'tau': 0.05}, 'dde': True},
+    'ddt':   {'eqs': ["x' = -a*x(t-tau) + c*x + u"], 'state': ['x'], 'const': ['a', 'c', 'tau'], 'in': 'u', 'out': 'x',
+              'defaults': {'x': 1.0, 'a': 2.0, 'c': 0.25, 'tau': 0.05}, 'dde': True},
     # operator with a large array-valued constant (dict-form variable definition): w = zeros(1500), w[700] = wmid
     'tab':   {'eqs': ["x' = -a*x + u + mean(w)"], 'state': ['x'], 'const': ['a', 'wmid'], 'in': 'u', 'out': 'x',
               'defaults': {'x': 0.5, 'a': 2.0, 'wmid': 1500.0}, 'array': True},
@@ -36,8 +41,11 @@ LIB = {
 }
 
 
-def ref_rhs(lib, p, s, u):
-    """derivatives of operator `lib` with parameters p, state s (dicts) and summed input u"""
+def ref_rhs(lib, p, s, u, past=None):
+    """derivatives of operator `lib` with parameters p, state s (dicts) and summed input u;
+    past(var, delay) -> value of this operator's state variable `var` at time now - delay (DDE operators)"""
+    if lib in ('dd', 'ddt'):
+        return {'x': -p['a'] * past('x', p['tau']) + p['c'] * s['x'] + u}
     if lib == 'lin':
         return {'x': -p['a'] * s['x'] + u}
     if lib == 'sat':
@@ -128,13 +136,20 @@ class RefNet:
                 u += a.get('weight', 1.0) * y[s]
         return u
 
-    def rhs(self, y, extra=None):
-        """y: {state name: value}; extra: {(node, opname): additional input}.  Undelayed edges only."""
+    def rhs(self, y, extra=None, past=None):
+        """y: {state name: value}; extra: {(node, opname): additional input}; past(state name, delay) -> value of that
+        state variable `delay` time units ago.  Without `past` only undelayed edges contribute."""
         out = {}
         for (n, o), i in self.inst.items():
             u = self.undelayed_input(y, n, o) + (extra or {}).get((n, o), 0.0)
+            if past is not None:
+                tgt = f"{n}/{o}/{LIB[i['lib']]['in']}"
+                for s_, t_, a in self.edges:
+                    if t_ == tgt and a.get('delay') and not a.get('spread'):
+                        u += a.get('weight', 1.0) * past(s_, a['delay'])
             s = {v: y[f'{n}/{o}/{v}'] for v in LIB[i['lib']]['state']}
-            for v, d in ref_rhs(i['lib'], i['p'], s, u).items():
+            pf = (lambda var, d, n=n, o=o: past(f'{n}/{o}/{var}', d)) if past is not None else None
+            for v, d in ref_rhs(i['lib'], i['p'], s, u, pf).items():
                 out[f'{n}/{o}/{v}'] = d
         return out
 
